@@ -1,9 +1,13 @@
-(* C09 -- property theorems only; each is closed by a lemma of Lemmas.v / Refuted.v.
-   State = heap of class level Parameter and datatype objects + class table + instances; ops = class definition,
-   instantiation with configuration, setProperty on one instance, enum growth on one instance. *)
+(* C09 -- property theorems only; each is closed by a lemma of Lemmas.v / CmdLemmas.v / CmdFrame.v / Refuted.v.
+   Parameter component (Model.v): heap of class level Parameter and datatype objects + class table + instances;
+   ops = class definition, instantiation with configuration, setProperty on one instance, enum growth on one instance.
+   Command / mixin component (CmdModel.v): heap of class level Command objects, of the argument / result datatype
+   objects of classes AND instances, and of callback dicts; ops = class definition (Command(...)(func), plain method,
+   None), instantiation, setProperty on the argument / result datatype of one instance, register_input. *)
 From Coq Require Import List Arith ZArith Bool Lia.
 Import ListNotations.
 Require Import FV.Gen.C09 FV.C09.Model FV.C09.Lemmas FV.C09.Refuted.
+Require Import FV.C09.CmdModel FV.C09.CmdLemmas FV.C09.CmdFrame.
 
 (* obligations on the facts regenerated from /repo (Gen/C09.v): the statements the model transliterates are there *)
 Theorem C09_source_facts :
@@ -12,7 +16,10 @@ Theorem C09_source_facts :
   accessible_copy = true /\ param_own_properties = true /\ param_finish_revalidates = true /\
   param_setproperty_routes = true /\ hasproperties_fresh_values = true /\ property_set_on_instance = true /\
   module_init_copies = true /\ add_accessible_configures_copy = true /\ datatype_copy_rebuilds = true /\
-  register_input_replaces_datatype = true.
+  register_input_replaces_datatype = true /\
+  command_clone_copies_argument_and_result = true /\ command_merge_in_place = true /\
+  command_create_from_value = true /\ command_call_marks_optional = true /\ command_own_properties = true /\
+  mixins_no_mutable_class_attribute = true /\ register_input_creates_instance_dict_first = true.
 Proof. repeat split; reflexivity. Qed.
 
 (* (1) FULL STRENGTH.  An instance is changed only by the ops addressed to it: whatever else happens -- class
@@ -88,6 +95,121 @@ Theorem C09_refuted_value_override_leak :
     describe_class (define s d) (nth i (classes s) cls0) <> describe_class s (nth i (classes s) cls0).
 Proof. exact C09_refuted_own_datatype. Qed.
 
+
+(* ================= command / mixin component ================= *)
+
+(* (8) FULL STRENGTH, for ALL sequences of class definitions / instantiations / run-time changes / registrations:
+   no argument or result datatype object of an instance is referenced by any class level Command object
+   (propertyValues or ownProperties) or by another instance, and a class definition writes to no datatype object that
+   existed before it (the optional list set by Command.__call__ always lands in a new object).  So instances and
+   classes never share argument / result datatype objects that any op could change *)
+Theorem C09_command_datatypes_isolated : forall ops,
+  let s := xrun ops in
+  (forall i x, In x (xowned (inst_at s i)) -> x < length (xdts s) /\ ~ In x (class_refs (xcells s))) /\
+  (forall i j x, i <> j -> In x (xowned (inst_at s i)) -> ~ In x (xowned (inst_at s j))) /\
+  (forall d j, j < length (xdts s) -> getcd (xdts (xdefine s d)) j = getcd (xdts s) j).
+Proof.
+  intros ops s. pose proof (xinv_run ops) as V. fold s in V. split; [|split].
+  - apply (I2 s V).
+  - apply (I3 s V).
+  - intros d. apply (xdefine_heap s d V).
+Qed.
+
+(* (9) FULL STRENGTH.  Consequence for behaviour: whatever else happens after any history -- class definitions,
+   creation of other instances, changes of argument / result datatype properties of other instances, registrations
+   on other instances -- instance j keeps its objects, the description of its commands (argument / result datainfo,
+   hence what they accept) and its registered inputs *)
+Theorem C09_command_instances_isolated : forall ops0 ops j,
+  let s := xrun ops0 in
+  j < length (xinsts s) -> forallb (fun o => negb (xaddresses o j)) ops = true ->
+  inst_at (fold_left xstep ops s) j = inst_at s j /\
+  xdescribe_inst (fold_left xstep ops s) (inst_at s j) = xdescribe_inst s (inst_at s j).
+Proof. intros; apply other_inst_unchanged_hist; auto. apply xinv_run. Qed.
+
+(* (10) FULL STRENGTH.  Creating instances, changing datatype properties of their command arguments / results and
+   registering inputs never changes the command description of any class, nor the class attribute *)
+Theorem C09_command_classes_unaffected_by_instances : forall ops0 ops c,
+  let s := xrun ops0 in
+  forallb xinst_op ops = true ->
+  xdescribe_class (fold_left xstep ops s) c = xdescribe_class s c /\ xcls_inputs (fold_left xstep ops s) = xcls_inputs s.
+Proof.
+  intros ops0 ops c s H. destruct (class_unchanged_by_inst_ops ops s c (xinv_run ops0) H) as (A & B & _). auto.
+Qed.
+
+(* (11) FULL STRENGTH.  The commands and inputs of a new instance are a function (xnew_inst_desc: no instance, no heap
+   identity) of the command description of its class and of its own configuration; hence an instance created after
+   any instance ops is described like one created before them *)
+Theorem C09_command_later_instances_unaffected : forall ops0 ops ci cfg,
+  let s := xrun ops0 in
+  forallb xinst_op ops = true ->
+  let t := fold_left xstep ops s in
+  xdescribe_inst (xinstantiate t ci true cfg) (inst_at (xinstantiate t ci true cfg) (length (xinsts t))) =
+  xdescribe_inst (xinstantiate s ci true cfg) (inst_at (xinstantiate s ci true cfg) (length (xinsts s))).
+Proof.
+  intros ops0 ops ci cfg s H t.
+  rewrite (new_inst_described t ci cfg (xinv_steps ops s (xinv_run ops0))).
+  rewrite (new_inst_described s ci cfg (xinv_run ops0)).
+  apply later_instance_unaffected_cmd; auto. apply xinv_run.
+Qed.
+
+(* (12) The full statement would be: a class definition changes the command description of no existing class.  It is
+   false in the model and in the pinned code (C09_refuted_method_override_reset_by_subclass; the in-place merge of
+   finding 1 applies to Command objects too).  Proved with the exact exclusion: none of the Command objects of the
+   class is re-merged in place by the definition (xfootprint, computed by the model) *)
+Theorem C09_command_define_frame_except_inplace_merge : forall ops0 d c,
+  let s := xrun ops0 in
+  (forall k i, In (k, i) (xc_acc c) -> i < length (xcells s) /\ ~ In i (xfootprint s d)) ->
+  xdescribe_class (xdefine s d) c = xdescribe_class s c.
+Proof. intros; apply class_unchanged_by_define_cmd; auto. apply xinv_run. Qed.
+
+(* (13) FULL STRENGTH, for ALL sequences of ops: the callback dict an instance writes to is neither the class attribute
+   nor the dict of another instance; nothing is ever registered in the class attribute, so an instance created at any
+   time (accepted or not) starts without inputs; and registrations on other instances (like every other op not
+   addressed to it) leave the inputs of instance j alone *)
+Theorem C09_mixin_state_isolated : forall ops0,
+  let s := xrun ops0 in
+  (forall i d, xi_cb (inst_at s i) = Some d -> d < length (xcbs s) /\ xclscb s <> Some d) /\
+  (forall i j d, i <> j -> xi_cb (inst_at s i) = Some d -> xi_cb (inst_at s j) <> Some d) /\
+  xcls_inputs s = [] /\
+  (forall ci ok cfg,
+     xinputs (xinstantiate s ci ok cfg) (inst_at (xinstantiate s ci ok cfg) (length (xinsts s))) = []) /\
+  (forall ops j, j < length (xinsts s) -> forallb (fun o => negb (xaddresses o j)) ops = true ->
+     xinputs (fold_left xstep ops s) (inst_at (fold_left xstep ops s) j) = xinputs s (inst_at s j)).
+Proof.
+  intros ops0 s. pose proof (xinv_run ops0) as V. fold s in V. split; [|split; [|split; [|split]]].
+  - apply (M1 s V).
+  - apply (M2 s V).
+  - apply (M4 s V).
+  - intros. apply new_inst_inputs. assumption.
+  - intros ops j Lj H. destruct (other_inst_unchanged_hist ops s j V Lj H) as [E1 E2].
+    rewrite E1. unfold xdescribe_inst in E2. inversion E2. reflexivity.
+Qed.
+
+Theorem C09_refuted_method_override_reset :
+  exists ops d i, let s := xrun ops in
+    i < length (xclasses s) /\
+    xdescribe_class (xdefine s d) (nth i (xclasses s) xcls0) <> xdescribe_class s (nth i (xclasses s) xcls0).
+Proof. exact C09_refuted_method_override_reset_by_subclass. Qed.
+
+(* non-vacuity of (8)/(9): two instances of a class with a struct argument, the limit of member b of ONE is changed:
+   the instances own 2 + 2 distinct objects, the description of instance 0 changes, that of instance 1 and of the class
+   does not *)
+Example C09_demo_setarg :
+  let s := xrun [xA; XInst 0 true []; XInst 0 true []] in
+  let s' := xstep s (XSetArg 0 2 false (Some 2%Z) 4 5%Z) in
+  xowned (inst_at s 0) = [1] /\ xowned (inst_at s 1) = [2] /\ class_refs (xcells s) = [0; 0] /\
+  xdescribe_inst s' (inst_at s' 0) <> xdescribe_inst s (inst_at s 0) /\
+  xdescribe_inst s' (inst_at s' 1) = xdescribe_inst s (inst_at s 1) /\
+  xdescribe_class s' (nth 0 (xclasses s') xcls0) = xdescribe_class s (nth 0 (xclasses s) xcls0).
+Proof. vm_compute. repeat split. intro H. discriminate H. Qed.
+
+(* non-vacuity of (13): inputs registered on instances 0 and 1 of one class stay apart, instance 2 created later has none *)
+Example C09_demo_register :
+  let s := xrun [xA; XInst 0 true []; XInst 0 true []; XRegister 0 1001%Z; XRegister 1 1002%Z; XRegister 0 1003%Z;
+                 XInst 0 true []] in
+  map (fun i => xinputs s (inst_at s i)) [0; 1; 2] = [[1001%Z; 1003%Z]; [1002%Z]; []] /\ xcls_inputs s = [].
+Proof. vm_compute. repeat split. Qed.
+
 (* non-vacuity: an overriding subclass with an own Parameter object writes to nothing that exists;
    `class D(A): pass` re-merges A.p in place (footprint [0]) to the same content *)
 Example C09_demo_self_contained :
@@ -114,3 +236,10 @@ Print Assumptions C09_define_frame_except_inplace_writes.
 Print Assumptions C09_define_frame_self_contained.
 Print Assumptions C09_refuted_mixin_alias.
 Print Assumptions C09_refuted_value_override_leak.
+Print Assumptions C09_command_datatypes_isolated.
+Print Assumptions C09_command_instances_isolated.
+Print Assumptions C09_command_classes_unaffected_by_instances.
+Print Assumptions C09_command_later_instances_unaffected.
+Print Assumptions C09_command_define_frame_except_inplace_merge.
+Print Assumptions C09_mixin_state_isolated.
+Print Assumptions C09_refuted_method_override_reset.
